@@ -1525,8 +1525,11 @@ class TaskPool:
                 c_task = self.spawn_task(c_name, c_point, itask.flow_nums)
 
             tasks: List[TaskProxy]
-            if c_task is not None:
+            if c_task is not None or is_abs:
                 # Have child task, update its prerequisites.
+                # (With an absolute trigger the first child may not be
+                # spawnable, e.g. it is before the start point of a warm
+                # start, but other instances may already be in the pool.)
                 if is_abs:
                     # NOTE: Absolute triggers can have an infinite number of
                     # graph children, so only the first match is listed. We
@@ -1538,7 +1541,7 @@ class TaskPool:
                         only_match_pool=True,
                     )
                     tasks = self.get_itasks(matched)
-                    if c_task not in tasks:
+                    if c_task is not None and c_task not in tasks:
                         tasks.append(c_task)
                 else:
                     tasks = [c_task]
